@@ -206,8 +206,12 @@ def run_case(c):
                 if isinstance(nbl, list):
                     # the same list object again, on the other channels
                     other = [(j + 1) % 3 for j in idx]
-                    got2 = d.hist_bins(other, nb_arg, sc_arg)
-                    per2 = [d.hist_bins(j, nbl[k], scl[k] if isinstance(scl, list) else scl) for k, j in enumerate(other)]
+                    try:
+                        got2 = d.hist_bins(other, nb_arg, sc_arg)
+                        per2 = [d.hist_bins(j, nbl[k], scl[k] if isinstance(scl, list) else scl) for k, j in enumerate(other)]
+                    except Exception as e:
+                        res.violation('lists:reused-raises:%s' % type(e).__name__, '%s, then the same nbins list on channels %r raised %s: %s' % (what, other, type(e).__name__, e), one)
+                        continue
                     if not all(np.array_equal(np.asarray(g), np.asarray(p_)) for g, p_ in zip(got2, per2)):
                         res.violation('lists:reused-argument', '%s, then the same nbins list on channels %r: differs from the per-channel answers' % (what, other), one)
                         continue
